@@ -56,6 +56,12 @@ CLAIMS = {
    design_ref="DESIGN.md §4 C02",
    note="Trusted: Coq kernel; harness/c02.py state construction and two-route driver; exptree walker. The sequence universe is fixed (VERIF_SEED selects a block) so that the known-findings list is complete for it.",
    technique="Coq proof of symbolic-composition = sequential execution over assignment programs + two-route differential execution of decoded instruction sequences"),
+ "C09": dict(
+   category="proof",
+   text="Coq theorems over a byte-level model of the mapper's ordered store map: replaying the map (what a possibly-aliased read's mods and the composed final memory are computed from) equals byte-level sequential execution for EVERY pointer assignment, as long as no pointer key / address is stored twice; under the no-aliasing assumption a zone read equals sequential execution whenever stores through other pointers do not overlap the byte read; a refutation witness shows the guard is forced (same address stored twice with an overlapping store in between) and is replayed on the implementation as a known finding. Tie: ordered-map structure (key order, composed sizes) of real mappers vs the model (vm_compute). Search oracle: load/store programs over 3 pointers x endianness x settings x pointer assignments from a lattice vs a bytearray execution. One defect (aliasing() ignoring earlier stores when the own-key store is narrower than the read) was repaired.",
+   design_ref="DESIGN.md §4 C09",
+   note="Trusted: Coq kernel; harness/c09.py (program driver, bytearray reference). Values are byte strings in the model; big-endian replay and memtrace-off are known findings.",
+   technique="Coq proof of replay = sequential execution under the no-rewrite guard (+ refutation witness) + differential testing against bytearray execution over pointer assignments"),
 }
 NOT_YET = {}
 def main():
